@@ -297,6 +297,19 @@ func shapeMsg(shape string) *dns.Msg {
 	case "no-opt":
 		m.Rcode = dns.RcodeNameError
 		m.Extra = rest
+	case "no-records/q0", "no-records/q1", "no-records/q2", "no-records/q1/uncompressed":
+		// header and questions only (a query, an empty reply): nothing a compression pointer could
+		// point to, every header flag set
+		m.Rcode = dns.RcodeRefused
+		m.Answer, m.Ns, m.Extra = nil, nil, nil
+		m.Authoritative, m.Truncated, m.RecursionAvailable, m.Zero, m.AuthenticatedData, m.CheckingDisabled = true, true, true, true, true, true
+		m.Compress = shape != "no-records/q1/uncompressed"
+		switch shape {
+		case "no-records/q0":
+			m.Question = nil
+		case "no-records/q2":
+			m.Question = append(m.Question, dns.Question{Name: "Other.Example.ORG.", Qtype: dns.TypeTXT, Qclass: dns.ClassCHAOS})
+		}
 	}
 	return m
 }
@@ -375,7 +388,8 @@ func cases() []tcase {
 	}
 	// small messages in other shapes: where the OPT sits in the additional section, a TSIG after it,
 	// two questions, empty sections, no OPT at all
-	for _, shape := range []string{"opt-first", "opt-middle+tsig", "two-questions+empty-sections", "no-opt"} {
+	for _, shape := range []string{"opt-first", "opt-middle+tsig", "two-questions+empty-sections", "no-opt",
+		"no-records/q0", "no-records/q1", "no-records/q2", "no-records/q1/uncompressed"} {
 		shape := shape
 		cs = append(cs, tcase{name: "Msg/small/" + shape,
 			build: func() object { return &msgObj{shapeMsg(shape), false} },
@@ -856,8 +870,8 @@ func record(out string, episodes int) {
 	smallTo := small
 	smallTo.name = "Msg/small/CopyTo"
 	smallTo.build = func() object { return &msgObj{buildMsg(true), true} }
-	shapes := append([]tcase(nil), cs[len(cs)-5:len(cs)-1]...)
-	cs = append(append(cs[:len(cs)-7], small, smallTo), shapes...) // the full-size messages and the value-equality case are for the replay tier
+	shapes := append([]tcase(nil), cs[len(cs)-9:len(cs)-1]...)
+	cs = append(append(cs[:len(cs)-11], small, smallTo), shapes...) // the full-size messages and the value-equality case are for the replay tier
 	ro := []string{"Pack", "Len", "String", "IsDuplicate", "Copy", "Sign", "Verify"}
 	seen := map[string]bool{}
 	var keep [][]byte // scribbled and replaced buffers stay referenced: their addresses must not be reused within an episode
@@ -865,7 +879,7 @@ func record(out string, episodes int) {
 		tc := &cs[rng.Intn(len(cs))]
 		// the interesting types more often
 		if rng.Intn(3) == 0 {
-			pick := []string{"OPT", "SVCB", "HTTPS", "APL", "VERIFPRIV", "Msg/small", "Msg/small/CopyTo", "AAAA", "IPSECKEY", "Msg/small/opt-first", "Msg/small/opt-middle+tsig", "Msg/small/no-opt"}
+			pick := []string{"OPT", "SVCB", "HTTPS", "APL", "VERIFPRIV", "Msg/small", "Msg/small/CopyTo", "AAAA", "IPSECKEY", "Msg/small/opt-first", "Msg/small/opt-middle+tsig", "Msg/small/no-opt", "Msg/small/no-records/q1", "Msg/small/no-records/q0"}
 			want := pick[rng.Intn(len(pick))]
 			for i := range cs {
 				if cs[i].name == want {
